@@ -542,7 +542,11 @@ def sig_long_unbroken_value(sub, spec, clause, detail) -> bool:
 
 
 def _only_strand_gained(before: str, after: str) -> bool:
-    return before != after and before.replace(":None", ":1") == after
+    """ same coordinates, every strand of the second is +1 """
+    import re
+    pattern = r":(None|-?1|0)(?=[,}])"
+    return (before != after and re.sub(pattern, "", before) == re.sub(pattern, "", after)
+            and set(re.findall(pattern, after)) == {"1"})
 
 
 def sig_candidate_wrap_point_linear(sub, spec, clause, detail) -> bool:
@@ -559,11 +563,9 @@ def sig_candidate_wrap_point_linear(sub, spec, clause, detail) -> bool:
             wrapped = (item["at"].endswith("/core") and detail["section"] == "candidates"
                        and item["first"].startswith("-{") and item["second"].startswith("join{")
                        and item["second"].count(",") == 1 and ",0:" in item["second"])
-            if not (wrapped or (not clause.startswith("gb_") and _only_strand_gained(item["first"], item["second"]))):
+            if not (wrapped or _only_strand_gained(item["first"], item["second"])):
                 return False
         return True
-    if clause.startswith("gb_"):
-        return False
     if _route_clause(clause, "features"):
         return (detail.get("type") in ("cand_cluster", "region") and detail.get("key") == "<location>"
                 and _only_strand_gained(*detail["values"]))
